@@ -32,9 +32,9 @@ def ReadOnly : Body → Prop
   | .nil => True
   | .cons s rest => s.readHandle?.isSome = true ∧ ReadOnly rest
 
-def bodyLen : Body → Nat
+def roBodyLen : Body → Nat
   | .nil => 0
-  | .cons _ rest => bodyLen rest + 1
+  | .cons _ rest => roBodyLen rest + 1
 
 /-- the ids read by a read-only body, in order, duplicates included -/
 def bodyReads (env : List Handle) : Body → List Id
@@ -46,11 +46,11 @@ def bodyReads (env : List Handle) : Body → List Id
 
 /-- every handle read by the body exists in the environment, is a signal/memo handle, and is older
 than `self` (a closure can only capture handles that existed before the node was created) -/
-def HandlesOk (self : Id) (env : List Handle) : Body → Prop
+def ReadHandlesOk (self : Id) (env : List Handle) : Body → Prop
   | .nil => True
   | .cons s rest =>
     (∀ h, s.readHandle? = some h → ∃ hd, env[h]? = some hd ∧ isValueKind hd.kind = true ∧ hd.id < self) ∧
-    HandlesOk self env rest
+    ReadHandlesOk self env rest
 
 /-- what a read-only body logs when run on `r` -/
 def bodyObs (r : Root) (env : List Handle) : Body → List Obs
@@ -62,9 +62,9 @@ def bodyObs (r : Root) (env : List Handle) : Body → List Obs
         | none => [])
      | none => []) ++ bodyObs r env rest
 
-theorem bodyReads_lt {self : Id} {env : List Handle} {b : Body} (h : HandlesOk self env b) :
+theorem bodyReads_lt {self : Id} {env : List Handle} {b : Body} (h : ReadHandlesOk self env b) :
     ∀ id ∈ bodyReads env b, id < self := by
-  fun_induction bodyLen b with
+  fun_induction roBodyLen b with
   | case1 => simp [bodyReads]
   | case2 s rest ih =>
     obtain ⟨h1, h2⟩ := h
@@ -82,7 +82,7 @@ theorem bodyReads_lt {self : Id} {env : List Handle} {b : Body} (h : HandlesOk s
 theorem evalPureBody_congr {r r' : Root} {env : List Handle} {b : Body} (hro : ReadOnly b)
     (h : ∀ id ∈ bodyReads env b, getUntracked r' id = getUntracked r id) (acc : Int) :
     evalPureBody r' env b acc = evalPureBody r env b acc := by
-  fun_induction bodyLen b generalizing acc with
+  fun_induction roBodyLen b generalizing acc with
   | case1 => simp [evalPureBody]
   | case2 s rest ih =>
     obtain ⟨h1, h2⟩ := hro
@@ -104,7 +104,7 @@ theorem evalPureBody_congr {r r' : Root} {env : List Handle} {b : Body} (hro : R
 theorem bodyObs_congr {r r' : Root} {env : List Handle} {b : Body}
     (h : ∀ id ∈ bodyReads env b, getUntracked r' id = getUntracked r id) :
     bodyObs r' env b = bodyObs r env b := by
-  fun_induction bodyLen b with
+  fun_induction roBodyLen b with
   | case1 => simp [bodyObs]
   | case2 s rest ih =>
     have hrest : ∀ id ∈ bodyReads env rest, getUntracked r' id = getUntracked r id :=
@@ -128,14 +128,14 @@ theorem getUntracked_of_value {r : Root} {id : Id} {n : Node} {v : Int} (hn : r.
 holds a value, the run succeeds, yields `evalPureBody`, appends the reads to the tracker, logs
 `bodyObs`, and changes nothing else in the root. -/
 theorem execBody_readOnly {b : Body} : ∀ {fuel : Nat} {r : Root} {c : Ctx} {t : List Id} {self : Id},
-    ReadOnly b → HandlesOk self c.env b → r.tracker = some t →
+    ReadOnly b → ReadHandlesOk self c.env b → r.tracker = some t →
     (∀ id ∈ bodyReads c.env b, ∃ n v, r.get? id = some n ∧ n.value = some v) →
-    bodyLen b + 1 ≤ fuel →
+    roBodyLen b + 1 ≤ fuel →
     ∃ acc, evalPureBody r c.env b c.acc = some acc ∧
       execBody fuel r c b =
         .ok ({ r with tracker := some (t ++ bodyReads c.env b) },
              ⟨c.env, acc, c.obs ++ bodyObs r c.env b⟩) := by
-  fun_induction bodyLen b with
+  fun_induction roBodyLen b with
   | case1 =>
     intro fuel r c t self _ _ ht _ hf
     obtain ⟨f, rfl⟩ : ∃ f, fuel = f + 1 := ⟨fuel - 1, by omega⟩
@@ -179,9 +179,9 @@ theorem execBody_readOnly {b : Body} : ∀ {fuel : Nat} {r : Root} {c : Ctx} {t 
 
 /-- **`runClosure` on a read-only body** (lemma 1) -/
 theorem runClosure_readOnly {fuel : Nat} {r : Root} {cl : Closure} {t : List Id} {self : Id}
-    (hro : ReadOnly cl.body) (hok : HandlesOk self cl.env cl.body) (ht : r.tracker = some t)
+    (hro : ReadOnly cl.body) (hok : ReadHandlesOk self cl.env cl.body) (ht : r.tracker = some t)
     (hal : ∀ id ∈ bodyReads cl.env cl.body, ∃ n v, r.get? id = some n ∧ n.value = some v)
-    (hf : bodyLen cl.body + 2 ≤ fuel) :
+    (hf : roBodyLen cl.body + 2 ≤ fuel) :
     ∃ v, evalPureBody r cl.env cl.body 0 = some v ∧
       runClosure fuel r cl =
         .ok ({ r with tracker := some (t ++ bodyReads cl.env cl.body) }, v,
@@ -202,7 +202,7 @@ structure NodeOk (j : Id) (n : Node) : Prop where
   /-- computations: read-only body over older value handles, nothing owned, and the dependency list
   is the list of reads of the body -/
   comp : ∀ eq cl, n.callback = some (eq, cl) →
-    n.children = [] ∧ n.cleanups = [] ∧ ReadOnly cl.body ∧ HandlesOk j cl.env cl.body ∧
+    n.children = [] ∧ n.cleanups = [] ∧ ReadOnly cl.body ∧ ReadHandlesOk j cl.env cl.body ∧
     n.dependencies = bodyReads cl.env cl.body
 
 /-- the part of `StaticArena` that does not mention marks, dirty flags or consistency -/
@@ -414,7 +414,7 @@ structure RunPost (r : Root) (cur : Id) (vfinal : Int) (changed : Bool) (ev : Ev
 /-- **`runNodeUpdate` on a read-only computation** (lemma 3) -/
 theorem runNodeUpdate_static {fuel : Nat} {r : Root} {cur : Id} {n : Node} {eq : EqKind} {cl : Closure}
     {old : Int} (hS : Struct r) (hn : r.get? cur = some n) (hcb : n.callback = some (eq, cl))
-    (hv : n.value = some old) (hf : bodyLen cl.body + 3 ≤ fuel) :
+    (hv : n.value = some old) (hf : roBodyLen cl.body + 3 ≤ fuel) :
     ∃ new r', evalPureBody r cl.env cl.body 0 = some new ∧ runNodeUpdate fuel r cur = .ok r' ∧
       RunPost r cur (if eqHolds eq new old then old else new) (!eqHolds eq new old)
         (.run cur (bodyObs r cl.env cl.body) new) r' := by
@@ -915,7 +915,7 @@ theorem RunPost.evolves {r r' : Root} {cur : Id} {vf : Int} {ch : Bool} {obs : L
 
 /-- every body is at most `B` statements long -/
 def BodyBound (r : Root) (B : Nat) : Prop :=
-  ∀ j n eq cl, r.get? j = some n → n.callback = some (eq, cl) → bodyLen cl.body ≤ B
+  ∀ j n eq cl, r.get? j = some n → n.callback = some (eq, cl) → roBodyLen cl.body ≤ B
 
 theorem Evolves.bodyBound {r r' : Root} {ran : List Event} (h : Evolves r r' ran) {B : Nat}
     (hb : BodyBound r B) : BodyBound r' B := by
@@ -1312,20 +1312,20 @@ theorem length_le_size_of_nodup {r : Root} {l : List Id} (hN : l.Nodup) (h : ∀
 
 theorem exists_bodyBound (r : Root) : ∃ B, BodyBound r B := by
   have key : ∀ k, ∃ B, ∀ j n eq cl, j < k → r.get? j = some n → n.callback = some (eq, cl) →
-      bodyLen cl.body ≤ B := by
+      roBodyLen cl.body ≤ B := by
     intro k
     induction k with
     | zero => exact ⟨0, fun _ _ _ _ h => absurd h (Nat.not_lt_zero _)⟩
     | succ k ih =>
       obtain ⟨B, hB⟩ := ih
-      have hb : ∃ b, ∀ n eq cl, r.get? k = some n → n.callback = some (eq, cl) → bodyLen cl.body ≤ b := by
+      have hb : ∃ b, ∀ n eq cl, r.get? k = some n → n.callback = some (eq, cl) → roBodyLen cl.body ≤ b := by
         cases hk : r.get? k with
         | none => exact ⟨0, fun _ _ _ h => by cases h⟩
         | some n =>
           cases hc : n.callback with
           | none => exact ⟨0, fun n' _ _ h h' => by cases h; rw [hc] at h'; cases h'⟩
           | some p =>
-            exact ⟨bodyLen p.2.body, fun n' eq cl h h' => by
+            exact ⟨roBodyLen p.2.body, fun n' eq cl h h' => by
               cases h; rw [hc] at h'; cases h'; exact Nat.le_refl _⟩
       obtain ⟨b, hb⟩ := hb
       refine ⟨max B b, fun j n eq cl hj hn hc => ?_⟩
